@@ -770,7 +770,9 @@ static std::string do_sf(const std::vector<std::string> &w)
 // ---------------------------------------------------------------------------------------------
 static void run_op(const std::vector<std::string> &w, const std::string &, out &o)
 {
-    hv::arm(20);
+    // per-op watchdog: 20 s; the oracle-only sweeps of 2^16 patterns x 6 precisions (2-3 s on an idle machine) get 90 s -
+    // on the shared machine (load average 60-200) ten of them were descheduled beyond 20 s in a thorough run (round 3b)
+    hv::arm(!w.empty() && w[0] == "sweep" ? 90 : 20);
     if (w.empty()) { o.result = "bad-op"; return; }
     const std::string &op = w[0];
     if (op == "tbl")
